@@ -90,7 +90,7 @@ def check_c15():
     wd = workdir("C15")
     rng = random.Random(seed())
     quick = tier() == "quick"
-    maxtok, maxcand, parts = (4, 4, 14) if quick else (5, 5, 56)
+    maxtok, maxcand, parts = (4, 4, 14) if quick else (5, 4, 56)
     rs = run_parts("MCGrammar.tla", GRAMMAR_CFG.format(maxtok=maxtok, maxcand=maxcand), parts, "gram", wd,
                    timeout=3 * 3600)
     states = sum(r["states"] for r in rs)
@@ -251,7 +251,7 @@ def check_c14():
     if quick:
         names, maxtags, alpha, maxline, parts = ["a", "b", "ab", "ba", "aa"], 2, ["a", "b", "x"], 4, 14
     else:
-        names, maxtags, alpha, maxline, parts = ["a", "b", "ab", "ba", "aa", "abb"], 3, ["a", "b", "x"], 5, 56
+        names, maxtags, alpha, maxline, parts = ["a", "b", "ab", "ba", "aa", "abb"], 3, ["a", "b", "x"], 4, 56
     rs = run_parts("MCTagInject.tla", TAG_CFG.format(names=tla_set(names), maxtags=maxtags, alpha=tla_set(alpha),
                                                       maxline=maxline), parts, "tag", wd, timeout=6 * 3600)
     states = sum(r["states"] for r in rs)
@@ -270,7 +270,7 @@ def check_c14():
             probe = t["cases"][0]["probe"]
             break
     reqs, meta = [], []
-    reps = 3
+    reps = 3 if quick else 2
     for t in tables:
         setup = [[s[0], s[1]] for s in t["setup"]]
         for c in t["cases"]:
